@@ -834,7 +834,7 @@ spif_ustr_trim(spif_ustr_t self)
     start = self->s;
     end = self->s + self->len - 1;
     for (; isspace((spif_uchar_t) (*start)) && (start <= end); start++);
-    for (; isspace((spif_uchar_t) (*end)) && (start < end); end--);
+    for (; (start < end) && isspace((spif_uchar_t) (*end)); end--);
     if (start > end) {
         return spif_ustr_done(self);
     }
